@@ -112,6 +112,7 @@ Thorough(x) ==
        /\ ((x.nll # "default" /\ Deviates(x, 1)) =>
               (RepPairing(x) \/ (x.amp_model = "base_factor" /\ x.preprocessor = "default")))
        /\ ((x.lazy_call /\ x.nll # "default") => x.nll \in {"cached_int", "cached_amp"})
+       /\ ((x.use_tf_function /\ x.nll # "default") => ~x.no_id_cached)
 
 --------------------------------------------------------------------------
 Init == s \in All
